@@ -445,6 +445,12 @@ PROPS = {
         "level": "proof",
         "level_prefix": "Partial proof -- contracts discharged without bound on the mechanisms named below, not the whole statement (bounded stand-ins and what is left out are listed): ",
         "units": ["symbols"],
+        "vx_search": {"bin": "c06_search_roundtrip", "crate": "replay_net", "release": True,
+                      "what": "100 records of 28 types with boundary field values (names with every kind of octet and of 255 octets, character "
+                              "strings with all octet values / 255 octets / spaces and quotes, TXT with up to 300 strings, empty binary fields, "
+                              "unknown types, all SVCB parameter kinds, odd classes and TTLs) written in the three zone-file display kinds and "
+                              "read back with the zone-file reader: each comes back equal -- on the real crate; the record level of the "
+                              "statement, which no contract reaches (open findings D30 and D42 are not among the cases)"},
         "kani": [
             {"group": "g0", "name": "c06_from_slice_index_window_bounded", "kind": "bounded", "tier": "quick",
              "bound": "buffers of at most 6 octets, every position 0..=8 (the function reads at most 4 octets from pos)",
